@@ -65,6 +65,17 @@ def check_problem(pr, method, rep=None, want=None, builder=None):
     except Exception as ex:
         fails.add("exception:build:" + type(ex).__name__, msg=str(ex)[:200])
         return fails
+    from checks.c05 import has_optional_lp_form
+
+    if has_optional_lp_form(pr):
+        try:
+            treated = P._is_linear_problem()
+        except Exception:
+            treated = True
+        if not treated:
+            if rep:
+                rep.skipped["linear-model-optyx-does-not-treat-as-LP (division by a non-literal constant expression)"] += 1
+            return fails
     ref = F.reference_lp(pr)
     try:
         rv = F.solve_reference(ref, method)
@@ -113,9 +124,56 @@ def check_problem(pr, method, rep=None, want=None, builder=None):
     return fails
 
 
+def check_deep_lp(nterms, shared, op, sense, method, rep=None, want=None):
+    """an LP whose objective and capacity row are left-deep accumulations of nterms linear terms (fresh or shared
+    composite term objects): verdict and optimum against the matrix form assembled from the exact coefficients"""
+    import optyx
+    from scipy.optimize import linprog
+    from checks.c05 import deep_model
+
+    fails = Fails(want)
+    acc, names, coef, const, y = deep_model(nterms, shared, op)
+    cvec = np.array([coef[nm] for nm in names])
+    tag = {"n": nterms, "shared_term_objects": shared, "op": op, "sense": sense, "method": method}
+    try:
+        P = optyx.Problem()
+        (P.minimize if sense == "min" else P.maximize)(acc)
+        P.subject_to(acc + 2 * y <= 40).subject_to(acc >= -30)
+        sols = [P.solve(**({} if method == "auto" else {"method": method})) for _ in range(2)]
+    except Exception as ex:
+        fails.add("exception:deep-lp:" + type(ex).__name__, msg=str(ex)[:200], **tag)
+        return fails
+    sign = 1.0 if sense == "min" else -1.0
+    row2 = cvec + np.array([0.0, 0.0, 0.0, 2.0])
+    res = linprog(c=sign * cvec, A_ub=np.array([row2, -cvec]), b_ub=np.array([40 - const, 30 + const]),
+                  bounds=[(0.0, 4.0)] * 3 + [(-1.0, 2.0)], method="highs" if method in ("auto", "linprog") else method)
+    if rep:
+        rep.states += 1
+        rep.transitions += nterms + 2
+        rep.evaluations += 2
+        rep.nt(("deep-lp", nterms, shared, op, sense, method))
+    if res.status != 0:
+        return fails
+    ref = sign * float(res.fun) + const
+    for k, sol in enumerate(sols):
+        if sol.status.value != "optimal":
+            fails.add("verdict:deep" + (":repeat" if k else ""), got=sol.status.value, expected="optimal", **tag)
+        elif sol.objective_value is None or abs(sol.objective_value - ref) > 1e-7 * (1 + abs(ref)):
+            fails.add("optimal-value:deep" + (":repeat" if k else ""), got=sol.objective_value, expected=ref, **tag)
+    return fails
+
+
+DEEP_LP = [(nt, sh, op, se, m) for nt in (401, 700) for sh in (False, True) for op in ("+", "-") for se in ("min", "max")
+           for m in ("auto", "highs-ds")]
+
+
 def explore(item, tier, seed):
     i, n = item
     rep = Report()
+    for j, cfg in enumerate(DEEP_LP):
+        if j % n == i:
+            for kind, d in check_deep_lp(*cfg, rep=rep):
+                rep.violation(kind, {"labels": ("deep-lp",) + cfg[:3], "problem": ("prob", cfg[3]), "method": cfg[4], "deep": list(cfg)}, **d)
     import itertools as _it
 
     for idx, labs, pr, method in _it.chain(F.family(tier), F.view_family()):
@@ -143,6 +201,8 @@ def culprit(v):
 
 def replay(art):
     case = art["violation"]["case"]
+    if case.get("deep"):
+        return [{"kind": k, "detail": d} for k, d in check_deep_lp(*case["deep"], want=art["culprit"]["kind"])]
     if case.get("warm"):
         fs = check_warm_objects(detuple(case["problem"]), case["method"], None, want=art["culprit"]["kind"].replace(":warm-objects", ""))
         return [{"kind": k + ":warm-objects", "detail": d} for k, d in fs]
